@@ -23,9 +23,9 @@ CONFIG = {
              "(document, path list)."),
     "trusted_base": [
         "modelled, not verified: yamlpath/processor.py 59-167, 811-2627; wrappers/nodecoords.py",
-        "the model is a pure function of an immutable document; the one writing statement of the read path "
-        "(processor.py:1644-1645) is an explicit stream end (Mut); that nothing else writes is what the deep "
-        "snapshot of the real document checks on every query of the run",
+        "the model is a pure function of an immutable document; a writing statement is an explicit stream end "
+        "(Mut) and no read path has one since collector subtraction works on a copy (fix 30ffde4); that nothing "
+        "writes is what the deep snapshot of the real document checks on every query of the run",
         "parameters of the model: keyword-search handler; node-creating branches of _get_optional_nodes",
     ],
     "assumptions": [
@@ -73,31 +73,20 @@ def judge(case, obs):
     return None
 
 
-def has_subtraction(path):
-    return ")-(" in path
-
-
-def f16_subtraction(case, obs):
-    """every query of the case that changed the document on a read has a subtraction collector"""
-    doc, paths = case
-    bad = [paths[i // 3] for i, l in enumerate(obs) if mutates(l) and i % 3 != 1]
-    bad += [paths[i] for i in range(len(paths)) if mutates(obs[3 * i + 1]) and obs[3 * i].startswith("(ok (")
-            and obs[3 * i] != "(ok ())" and has_subtraction(paths[i])]
-    return bool(bad) and all(has_subtraction(p) for p in bad) and not f16b_partial_existence(case, obs)
-
-
 def f16b_partial_existence(case, obs):
-    """the only changes are made by optional queries (no subtraction) whose path the required query matches:
-    the path exists in some branches (list elements, wildcard children) and its tail is created in the others"""
+    """the only changes are made by optional queries whose path the required query matches: the path exists in
+    some branches (list elements, wildcard children) and its tail is created in the others.  (A change made by
+    a required query or by exists() -- with or without a subtraction collector: finding F16 is fixed -- is
+    attributed to nothing.)"""
     doc, paths = case
     if any(mutates(l) and i % 3 != 1 for i, l in enumerate(obs)):
         return False
     bad = [paths[i] for i in range(len(paths)) if mutates(obs[3 * i + 1]) and obs[3 * i].startswith("(ok (")
            and obs[3 * i] != "(ok ())"]
-    return bool(bad) and not any(has_subtraction(p) for p in bad)
+    return bool(bad)
 
 
-FINDING_PREDS = {"subtraction_over_hash": f16_subtraction, "optional_partial_existence": f16b_partial_existence}
+FINDING_PREDS = {"optional_partial_existence": f16b_partial_existence}
 
 
 def classify(case, obs):
